@@ -68,7 +68,8 @@ type ILine struct {
 	Meas   Str      `json:"meas"`
 	Tags   []KV     `json:"tags"`
 	Fields []IField `json:"fields"`
-	Ts     int64    `json:"ts"` // in units of the precision
+	Ts     int64    `json:"ts"`              // in units of the precision
+	NoTs   bool     `json:"no_ts,omitempty"` // the line is written without a timestamp: the parser stamps it with the clock truncated to the precision
 }
 
 // Datadog logs
